@@ -156,17 +156,22 @@ def c09_decide(ctx, obs):
 
 
 # ------------------------------------------------------------------------------------------------ C12
-def c12_jobs(ctx, names):
+def c12_jobs(ctx, names, focus=()):
     r = ctx.rng
     jobs = []
     for nm in names:
-        for _ in range((1 if ctx.quick else 10) * ctx.boost):
+        for _ in range((1 if ctx.quick else 10) * ctx.boost + (5 if nm in focus else 0)):
             obj = r.choice(["sphere", "rastrigin", "step", "shifted", "linear", "lognan"])
             seed = r.randint(0, 10**6); dim = r.choice([2, 3]); lo, hi = r.choice([(-10.0, 10.0), (0.0, 5.0), (-3.0, 1.0)])
             if obj == "lognan": lo, hi = -10.0, 10.0
             cfg = {"max_cycles": r.choice([2, 4]), "fitness_error": None, "early_stopping": None}
             jobs.append(({"opt": nm, "cfg": cfg, "task": search.cont_task(obj=obj, minmax="max", seed=seed, dim=dim, lo=lo, hi=hi)},
                          {"opt": nm, "cfg": cfg, "task": search.cont_task(obj="neg:" + obj, minmax="min", seed=seed, dim=dim, lo=lo, hi=hi)}))
+        # the same duality for a weighted multi-objective task (every objective negated, same weights)
+        if not ctx.quick or nm in focus or r.random() < 0.5:
+            mo = lambda obj_, mm_: {"vars": [("multiobj", ([-4.0, -4.0], [4.0, 4.0]))], "obj": obj_, "minmax": mm_, "weights": [0.3, 0.7], "seed": seed}
+            cfg = {"max_cycles": 3, "fitness_error": None, "early_stopping": None}
+            jobs.append(({"opt": nm, "cfg": cfg, "task": mo("multi2", "max")}, {"opt": nm, "cfg": cfg, "task": mo("neg:multi2", "min")}))
     return jobs
 
 
